@@ -48,12 +48,24 @@ def _func(tree, name):
     raise TranslationError("cli.py: function %s not found" % name)
 
 
-def _names(fn):
-    """(lineno, col, identifier) for every Name load in fn, in source order"""
+def _names(fn, tree=None):
+    """(lineno, col, sub, identifier) for every Name load in fn, in source order.  A call of another function defined at module level
+    in cli.py that is not itself a vocabulary item is inlined at its call site (sub = positions inside the helper, nested up to three
+    levels), so that moving a construction into a helper does not hide it nor change its place in the order"""
+    funcs = {n.name: n for n in tree.body if isinstance(n, ast.FunctionDef)} if tree is not None else {}
     out = []
-    for n in ast.walk(fn):
-        if isinstance(n, ast.Name) and isinstance(n.ctx, ast.Load):
-            out.append((n.lineno, n.col_offset, n.id))
+
+    def visit(node, site, sub, depth):
+        for n in ast.walk(node):
+            if isinstance(n, ast.Name) and isinstance(n.ctx, ast.Load):
+                here = (n.lineno, n.col_offset)
+                out.append((site or here) + ((sub + here) if site else (),) + (n.id,))
+            if (isinstance(n, ast.Call) and isinstance(n.func, ast.Name) and n.func.id in funcs and n.func.id not in MOD_VOCAB
+                    and funcs[n.func.id] is not fn and funcs[n.func.id] is not node and depth < 3):
+                here = (n.lineno, n.col_offset)
+                visit(funcs[n.func.id], site or here, (sub + here) if site else (), depth + 1)
+
+    visit(fn, None, (), 0)
     return sorted(out)
 
 
@@ -71,7 +83,7 @@ def _dedupe(seq):
 def generate():
     tree = ast.parse(src("src/cutadapt/cli.py"))
     fn = _func(tree, "make_pipeline_from_args")
-    names = _names(fn)
+    names = _names(fn, tree)
     # ---- modifiers: everything after `modifiers = []`
     start = None
     for n in ast.walk(fn):
@@ -79,7 +91,7 @@ def generate():
             start = n.lineno
     if start is None:
         raise TranslationError("cli.py: `modifiers = []` not found in make_pipeline_from_args")
-    mods = _dedupe([MOD_VOCAB[i] for (l, c, i) in names if l >= start and i in MOD_VOCAB])
+    mods = _dedupe([MOD_VOCAB[i] for (l, c, s_, i) in names if l >= start and i in MOD_VOCAB])
     both_fn = _func(tree, "modifiers_applying_to_both_ends_if_paired")
     both = []
     for n in ast.walk(both_fn):
@@ -98,16 +110,16 @@ def generate():
     for k in mods:
         order += both if k == "<both>" else [k]
     # ---- steps: everything before `modifiers = []`
-    pre = [(l, c, i) for (l, c, i) in names if l < start]
+    pre = [(l, c, s_, i) for (l, c, s_, i) in names if l < start]
     first = {}
-    for l, c, i in pre:
-        first.setdefault(i, (l, c))
+    for l, c, s_, i in pre:
+        first.setdefault(i, (l, c, s_))
     for w in WRITERS + list(FILTER_VOCAB) + ["IsUntrimmed"] + SINKS:
         if w not in first:
             raise TranslationError("cli.py: %s not found among the pipeline steps" % w)
-    forder = _dedupe([FILTER_VOCAB[i] for (l, c, i) in pre if i in FILTER_VOCAB and (l, c) == first[i]])
+    forder = _dedupe([FILTER_VOCAB[i] for (l, c, s_, i) in pre if i in FILTER_VOCAB and (l, c, s_) == first[i]])
     # the two uses of IsUntrimmed: under `elif args.discard_untrimmed` and under the untrimmed-output branch
-    iu = sorted({l for (l, c, i) in pre if i == "IsUntrimmed"})
+    iu = sorted({l for (l, c, s_, i) in pre if i == "IsUntrimmed"})
     branches = []
     for n in ast.walk(fn):
         if isinstance(n, ast.If):
